@@ -493,6 +493,12 @@ impl Encoder {
                     // We will be combining values with `|`, so we
                     // need to cast them first.
                     value = quote! { (#value as #chunk_type) };
+                } else if shift > 0
+                    && matches!(syn::parse2::<syn::Expr>(value.clone()), Ok(syn::Expr::Cast(_)))
+                {
+                    // `x as T << n` does not parse: `<` is taken as the
+                    // start of generic arguments for `T`.
+                    value = quote! { (#value) };
                 }
                 if shift > 0 {
                     let op = quote!(<<);
